@@ -177,6 +177,37 @@ impl<T> LocalFutureDeque<T> {
     }
 }
 
+/// Verification-only read-only probes (`cfg(folo_verif)`), used by the model-checking harnesses
+/// in `/verif`.
+#[cfg(folo_verif)]
+#[doc(hidden)]
+impl<T> LocalFutureDeque<T> {
+    /// Per slot front-to-back: `None` for a ready slot, `Some((ref_count, activated))` for a
+    /// pending one.
+    #[must_use]
+    pub fn verif_slots(&self) -> Vec<Option<(usize, usize)>> {
+        self.core.verif_slots()
+    }
+
+    /// Whether the stored parent waker would wake the same task as `waker`.
+    #[must_use]
+    pub fn verif_parent_will_wake(&self, waker: &std::task::Waker) -> bool {
+        self.core.verif_parent_will_wake(waker)
+    }
+
+    /// Live waker metadata entries in the calling thread's pool.
+    #[must_use]
+    pub fn verif_waker_meta_pool_len() -> u64 {
+        crate::waker_meta::verif_pool_len()
+    }
+
+    /// Live future allocations in the calling thread's pool for this deque variant.
+    #[must_use]
+    pub fn verif_futures_pool_len() -> u64 {
+        LOCAL_FUTURES_POOL.with(MultiPool::len)
+    }
+}
+
 impl<T> Default for LocalFutureDeque<T> {
     fn default() -> Self {
         Self::new()
